@@ -134,8 +134,8 @@ fn poll_is_woken_by_the_event<const WHEN: usize>() {
     match r {
         Ok(ev) => {
             assert!(ev.token == 77 && ev.extra == 5 && ev.kind == EventKind::Normal, "[C16.2-event-data] poll returns the token and extra data of the event that was sent");
-            assert!(ev.co.is_none() && sup::count(sup::E_RUN) == 1, "[C16.2-bottom-half-once] when poll returns an event its bottom half has been started exactly once");
-            assert!(unsafe { sup::RAN.as_ref().map(|c| c.shim_id()) } == Some(unsafe { ENV_CO_ID }), "[C16.2-own-bottom-half] the bottom half that ran belongs to the event returned");
+            assert!(ev.co.is_none() && sup::count(sup::E_RUN) + sup::count(sup::E_SCHEDULE) == 1, "[C16.2-bottom-half-once] when poll returns an event its bottom half has been started exactly once");
+            assert!(sup::resumed_id() == Some(unsafe { ENV_CO_ID }), "[C16.2-own-bottom-half] the bottom half that ran belongs to the event returned");
             std::mem::forget(ev);
         }
         Err(_) => assert!(false, "[C16.1-no-finished-while-alive] poll reported Finished/Timeout although a select coroutine is alive and sent an event"),
